@@ -180,14 +180,20 @@ fn run28(ctx: &mut Ctx) {
     ctx.cases(0, n, |ctx, rng, idx| {
         let real = idx & 1 == 1; let structured = idx % 4 < 2;
         let kbd: Vec<u8> = (0..6).map(|_| 1 + rng.below(255) as u8).collect();
-        let mut p = Pair::new(real, !structured && rng.chance(1, 4), false, rng.u16(), Some(&kbd), true);
-        let mut desc = Json::obj().set("real_traps", real);
+        let (ign28, dbg28, fill28) = (!structured && rng.chance(1, 4), rng.chance(1, 3), rng.u16());
+        let mut p = Pair::new(real, ign28, dbg28, fill28, Some(&kbd), true);
+        let mut desc = Json::obj().set("real_traps", real).set("debug_frames", dbg28);
         if structured {
             let fl = rng.chance(1, 4);
             let prog = gen_user_prog(rng, &ProgOpts { faults: fl, ..ProgOpts::default() });
-            if p.load_text(&prog.text).is_err() { return; }
+            let Ok(labels) = p.load_text(&prog.text) else { return };
             desc.put("program", prog.text.as_str());
-        } else { let d = super::c08::random_state(rng, &mut p); desc.put("state", d); }
+            // signatures registered for the callees (as a debugger front end does): recording frames must not add memory accesses
+            for sname in &prog.subs { if rng.chance(2, 3) { let a = labels[sname]; let (sg, pl) = gen_sig(rng); p.sim.frame_stack.set_subroutine_def(a, pl); p.r.sr_sigs.insert(a, sg); ctx.count("signatures.registered"); } }
+        } else {
+            let d = super::c08::random_state(rng, &mut p); desc.put("state", d);
+            for _ in 0..4 { let a = if rng.bool() { p.r.reg[rng.usize(8)] } else { p.r.pc.wrapping_add(rng.range(-64, 64) as u16) }; let (sg, pl) = gen_sig(rng); p.sim.frame_stack.set_subroutine_def(a, pl); p.r.sr_sigs.insert(a, sg); }
+        }
         let mut trace: Vec<String> = vec![];
         let cap = if structured { 1500 } else { 48 };
         let mut s = 0;
